@@ -994,6 +994,19 @@ theorem density_matrix_measurement_is_born_weighted_tableau_measurement (t : Tab
         Hilbert.tabRho t.n (t.zMeasure q o).1) :=
   Commute.appPD_meas_tab t q o hq hv hr
 
+/-- the hypotheses of `density_matrix_semantics_is_rho_of_compiled_tableau` are met by `exG` (gate-only, good, arities right; the
+    registers of each operation of its compile sequence are pairwise different) -/
+example : ∀ a, a ∈ exG.sops [1, 2, 3, 4] → a.regs.Nodup := by decide
+
+example (sc : Commute.Script) : ∃ s, stabRun exG.ne exG.np .zero [] ((exG.sops [1, 2, 3, 4]).map Commute.toCOp) = some s ∧
+    runSeq (Commute.appD exG.ne exG.np) (exG.sops [1, 2, 3, 4])
+      (some (Hilbert.tabRho (exG.ne + exG.np) (Tab.ket0 (exG.ne + exG.np)), sc)) = some (Hilbert.tabRho (exG.ne + exG.np) s.t, sc) :=
+  density_matrix_semantics_is_rho_of_compiled_tableau exG exG_good exG_arity exG_gates [1, 2, 3, 4] .zero [] sc (by decide)
+
+/-- the hypotheses of `density_matrix_measurement_is_born_weighted_tableau_measurement` are met by `|00⟩` -/
+example : 0 < (Tab.ket0 2).n ∧ (Tab.ket0 2).Valid ∧ (Tab.ket0 2).StabReal :=
+  ⟨by decide, (Tab.isSymplectic_iff _).mp (by decide), Hilbert.ket0_stabReal 2⟩
+
 /-- the hypothesis of the commutation theorems is met by real operations: a Hadamard on emitter 0 and a CNOT on photons 0, 1 -/
 example : ∀ r, r ∈ [(⟨.e, 0⟩ : Reg)] → r ∉ [(⟨.p, 0⟩ : Reg), ⟨.p, 1⟩] := by decide
 
